@@ -142,7 +142,28 @@ func appendSnapshotPackages(b []byte, s *slip.Scope) []byte {
 		sort.Slice(defs, func(i, j int) bool {
 			return defs[i].Name < defs[j].Name
 		})
+		// A package must be defined after the packages it uses.
+		ordered := make([]*slip.Package, 0, len(defs))
+		placed := map[*slip.Package]bool{}
+		var place func(p *slip.Package)
+		place = func(p *slip.Package) {
+			if placed[p] {
+				return
+			}
+			placed[p] = true
+			for _, u := range p.Uses {
+				for _, d := range defs {
+					if d == u {
+						place(d)
+					}
+				}
+			}
+			ordered = append(ordered, p)
+		}
 		for _, p := range defs {
+			place(p)
+		}
+		for _, p := range ordered {
 			form := slip.List{slip.Symbol("defpackage"), slip.String(p.Name)}
 			if 0 < len(p.Doc) {
 				form = append(form, slip.List{slip.Symbol(":documentation"), slip.String(p.Doc)})
